@@ -1218,7 +1218,7 @@ def u8mul(a: uint8, b: uint8) -> uint8:
     if a < 16 and b < 16:
         return a * b
     return a // max(b, 1)
-''')
+''', prio=0)
 
 _add("many_selectors", "\n".join(f'''
 @external
@@ -1379,4 +1379,4 @@ def select(tier, rnd):
     p0 = [c for c in CORPUS if c["prio"] == 0]
     p1 = [c for c in CORPUS if c["prio"] == 1]
     p2 = [c for c in CORPUS if c["prio"] == 2]
-    return p0 + rnd.sample(p1, min(len(p1), 8)) + rnd.sample(p2, min(len(p2), 6))
+    return p0 + rnd.sample(p1, min(len(p1), 6)) + rnd.sample(p2, min(len(p2), 5))
